@@ -193,6 +193,11 @@ func (fg *FnGen) derefQuiet(p *Val) *Loc {
 		return p.Loc
 	}
 	T := derefType(p.T)
+	if len(p.L) == 1 {
+		if pfx, ok := fg.privateRefs[p.L[0].S]; ok {
+			return &Loc{Prefix: pfx, Base: p.L[0], T: T}
+		}
+	}
 	return &Loc{Prefix: typeKey(T), Base: p.one(), T: T}
 }
 
@@ -710,6 +715,10 @@ func (fg *FnGen) evalCall(x *CCall, env *CEnv) *Val {
 	case "cap":
 		v := fg.evalC(x.Args[0], env)
 		return &Val{T: tInt, L: []Term{v.L[3]}}
+	case "global":
+		// mutable ghost global (e.g. the version of all JSON values); havoced by unknown calls
+		comp := "gg:" + x.Args[0].cstr()
+		return &Val{T: tInt, L: []Term{fg.get(env.st, comp, SInt)}}
 	case "count":
 		ev := x.Args[0].cstr()
 		return &Val{T: tInt, L: []Term{fg.get(env.st, "cnt:"+ev, SInt)}}
@@ -738,6 +747,11 @@ func (fg *FnGen) evalCall(x *CCall, env *CEnv) *Val {
 		mt := types.Unalias(m.T).Underlying().(*types.Map)
 		key := fg.mapKey(fg.evalC(x.Args[1], env))
 		return &Val{T: tBool, L: []Term{fg.mapHas(env.st, m, mt, key)}}
+	case "cat":
+		a := fg.evalC(x.Args[0], env)
+		b := fg.evalC(x.Args[1], env)
+		f := fg.declareFun("str_cat", []Sort{SInt, SInt}, SInt)
+		return &Val{T: types.Typ[types.String], L: []Term{app(f, SInt, a.one(), b.one())}}
 	case "arr":
 		v := fg.evalC(x.Args[0], env)
 		return &Val{T: tInt, L: []Term{v.L[0]}}
@@ -844,14 +858,18 @@ func (fg *FnGen) evalMod(e CExpr, env *CEnv) []modEntry {
 	if c, ok := e.(*CCall); ok {
 		if id, ok := c.Fn.(*CIdent); ok {
 			switch id.Name {
+			case "global":
+				comp := "gg:" + c.Args[0].cstr()
+				fg.compSort(comp, SInt)
+				return []modEntry{{comp: comp, whole: true, src: e.cstr()}}
 			case "count":
 				comp := "cnt:" + c.Args[0].cstr()
 				fg.compSort(comp, SInt)
 				return []modEntry{{comp: comp, whole: true, src: e.cstr()}}
 			case "held":
-				comp, _ := fg.evalLockPath(c.Args[0], env)
+				comp, idx := fg.evalLockPath(c.Args[0], env)
 				fg.compSort(comp, ArrSort(SBool))
-				return []modEntry{{comp: comp, whole: true, src: e.cstr()}}
+				return []modEntry{{comp: comp, base: idx, src: e.cstr()}}
 			case "atomic":
 				l := fg.evalLoc(c.Args[0], env)
 				sort := SInt
